@@ -39,24 +39,134 @@ def lattice(tier, seeded=(False, True), max_nm_q=64, max_nm_t=256, xs_q=(1, 2, 6
 
 def residual_obligations(ctx, run, S, case, vout, what, key_prefix, pred='honest_rejected'):
     """valid-zero for every coefficient of the verifier's final linear form"""
-    ev = run.residual_point(vout['events'])
-    if not ctx.expect(ev is not None, key_prefix + ':no-final-comparison', '%s: verifier never reached its final comparison' % what,
+    evs = run.residual_points(vout['events'])
+    if not ctx.expect(len(evs) > 0, key_prefix + ':no-final-comparison', '%s: verifier never reached its final comparison' % what,
                       case['cfg'], pred):
         return 0
-    form = run.form(ev['detail']['a'])
     side = run.side_conditions()
     S.sync_terms(run.T)
     nontrivial = 0
     done = set()
-    for b, nid in sorted(form.items()):
-        num, den, _ = run.norm.nm(nid)
-        if num in done:
-            continue
-        done.add(num)
+    for ev in evs:
+        form = run.form(ev['detail']['a'])
+        for b, nid in sorted(form.items()):
+            num, den, _ = run.norm.nm(nid)
+            if num in done:
+                continue
+            done.add(num)
+            S.sync_terms(run.T)
+            if run.T.cval(num) == 0:
+                continue
+            nontrivial += 1
+            ctx.solve(S, 'valid-zero', '%s residual[%s]' % (what, run.basis_name(b)), side + ['(not (= t%d 0.0))' % num],
+                      cfg=case['cfg'], key=key_prefix + ':residual', pred=pred)
+    return nontrivial
+
+
+# ------------------------------------------------------------------------------------------------
+# reading proofs / statements of a run as linear forms, and the comparison with the paper-form relation
+from spec import Lin, relation_residual
+from logs import LogView, member_challenges, weight_state
+
+
+def basis_index(run):
+    """name -> basis id for the named generators present in the dump"""
+    return {run.basis_name(i): i for i in range(len(run.core['basis']))}
+
+
+def lin_of_point(run, pid):
+    return Lin({b: run.norm.frac(nid) for b, nid in run.core['points'][pid]})
+
+
+def gens_by_derivation(run, n, m, x):
+    """the generators a statement with (n, m, x) must use, located by their DOCUMENTED derivation
+    (label 'GeneratorsChain' || G/H || LE32(party), block = index; SHA3-512 of the masking labels; basepoint)"""
+    bi = basis_index(run)
+    G = [bi.get('G[%d][%d]' % (j, i)) for j in range(m) for i in range(n)]
+    H = [bi.get('H[%d][%d]' % (j, i)) for j in range(m) for i in range(n)]
+    g = [bi.get('g<RISTRETTO_MASKING_BASEPOINT_%d>' % (k + 1)) for k in range(x)]
+    h = bi.get('h')
+    return G, H, g, h
+
+
+def adversarial_proof(run, info):
+    """proof elements of an adversarial member (opaque elements) as Lin / Frac"""
+    blobs = run.core['blobs']
+    nd1 = info['d1']
+    ks = [blobs[b]['k'] for b in info['elems']]
+    bi = basis_index(run)
+    lay = info['layout']['pieces']
+    # identity elements show up as literal zero bytes in the layout; detect per element from the layout
+    # element e occupies bytes [1+32e, 33+32e); rebuild the per-element view from the pieces
+    elems = []
+    pos = 0
+    for p in lay:
+        if 'blob' in p:
+            if pos >= 1:
+                elems.append(('blob', p['blob']))
+            pos += 32
+        else:
+            raw = bytes.fromhex(p['lit'])
+            for off in range(len(raw)):
+                if pos + off >= 1 and (pos + off - 1) % 32 == 0 and len(raw) - off >= 32:
+                    elems.append(('lit', raw[off:off + 32]))
+            pos += len(raw)
+    def scalar(e):
+        kind, v = elems[e]
+        if kind == 'blob':
+            return run.norm.fvar('elem_%d' % blobs[v]['k'])
+        return run.norm.fconst(int.from_bytes(v, 'little'))
+    def point(e):
+        kind, v = elems[e]
+        if kind == 'blob':
+            b = bi.get('free%d' % (1000000 + blobs[v]['k']))
+            if b is None:
+                raise Inconclusive('adversarial point element %d was never decompressed' % e)
+            return Lin({b: run.norm.fconst(1)})
+        if v == bytes(32):
+            return Lin()
+        raise Inconclusive('literal point bytes')
+    x = nd1
+    rounds = info['rounds']
+    return {'d1': [scalar(k) for k in range(x)], 'A': point(x), 'A1': point(x + 1), 'B': point(x + 2),
+            'r1': scalar(x + 3), 's1': scalar(x + 4),
+            'L': [point(x + 5 + 2 * j) for j in range(rounds)], 'R': [point(x + 6 + 2 * j) for j in range(rounds)]}
+
+
+def promise_fracs(run, idx, pinfo):
+    out = []
+    for j, p in enumerate(pinfo):
+        if p['p'] is None:
+            out.append(None)
+        elif p.get('p_sym'):
+            out.append(run.norm.fvar('p_%d_%d' % (idx, j)))
+        else:
+            out.append(run.norm.fconst(int(p['p'])))
+    return out
+
+
+def compare_residual(ctx, run, S, cfg, impl_form, spec_lin, what, key, pred='tampered_accepted', side=None):
+    """valid-eq(impl coefficient, spec coefficient) for every basis element of either form"""
+    side = side or []
+    keys = set(impl_form) | set(spec_lin.d)
+    n_nontrivial = 0
+    for b in sorted(keys, key=lambda v: (v is None, v)):
+        fi = run.norm.frac(impl_form[b]) if b in impl_form else run.norm.fconst(0)
+        fs = spec_lin.d.get(b, run.norm.fconst(0))
+        num = (fi - fs).num
         S.sync_terms(run.T)
         if run.T.cval(num) == 0:
+            ctx.D.record('valid-eq', what, 'unsat', 0.0, 'unsat')
             continue
-        nontrivial += 1
-        ctx.solve(S, 'valid-zero', '%s residual[%s]' % (what, run.basis_name(b)), side + ['(not (= t%d 0.0))' % num],
-                  cfg=case['cfg'], key=key_prefix + ':residual', pred=pred)
-    return nontrivial
+        n_nontrivial += 1
+        ctx.solve(S, 'valid-eq', '%s coefficient[%s]' % (what, run.basis_name(b) if b is not None else 'missing-generator'),
+                  side + ['(not (= t%d 0.0))' % num], cfg=cfg, key=key, pred=pred)
+    return n_nontrivial
+
+
+def weights_of(run, k):
+    """the k batch weights of a verification (variables of the weight RNG state), under the recorded non-zero path condition"""
+    cands = [s for s in weight_state(run)]
+    if not cands:
+        raise Inconclusive('no weight RNG state found')
+    return cands
